@@ -49,9 +49,126 @@ func runC18(c *runCtx) {
 	defer runtime.GOMAXPROCS(runtime.GOMAXPROCS(0))
 	for ci, cf := range confs {
 		for rep := 0; rep < c.pick(1, 3); rep++ {
-			c18Run(c, c.rng.fork(), ci, cf.workers, cf.procs, cf.cacheSize, cf.steps)
+			// (a run whose calls into the cache never come back — a lock that is kept for ever — must not
+			// take the whole check with it: it is the finding)
+			done := make(chan struct{})
+			r := c.rng.fork()
+			go func() {
+				defer close(done)
+				c18Run(c, r, ci, cf.workers, cf.procs, cf.cacheSize, cf.steps)
+			}()
+			select {
+			case <-done:
+			case <-time.After(c18RunLimit):
+				c.violation(-1, "C18/deadlock", fmt.Sprintf("a run (workers=%d GOMAXPROCS=%d cacheSize=%d) did not come back within %v: a call into the cache blocks for ever; last context: %v", cf.workers, cf.procs, cf.cacheSize, c18RunLimit, c.extra["context"]), nil)
+				return
+			}
 			cleanupScratch()
 		}
+	}
+	runtime.GOMAXPROCS(8)
+	c18QueryStorm(c)
+}
+
+const c18RunLimit = 240 * time.Second
+
+// c18QueryStorm: listings with filters (no full-text term) over a population large enough for the scan to
+// take a while, while other goroutines create and retitle bugs.  A crash of the runtime ("concurrent map
+// iteration and map write") ends the process and is reported by the check as such; a listing that misses
+// or repeats a bug is reported here.
+func c18QueryStorm(c *runCtx) {
+	c.context("query storm")
+	// (the real backend: the mock repository's search index is a plain map, not meant for several goroutines)
+	repo, _ := newGoGit("c18storm", false)
+	rc := mustCache(repo)
+	defer cleanupScratch()
+	defer rc.Close()
+	iden, err := rc.Identities().New("stormy", "s@example.com")
+	if err != nil {
+		panic(err)
+	}
+	rc.SetUserIdentity(iden)
+	const N = 150
+	for i := 0; i < N; i++ {
+		if _, _, err := rc.Bugs().New(fmt.Sprintf("storm bug %d", i), "m"); err != nil {
+			panic(err)
+		}
+	}
+	q, err := query.Parse("status:open")
+	if err != nil {
+		panic(err)
+	}
+	stop := make(chan struct{})
+	var wg sync.WaitGroup
+	var mu sync.Mutex
+	problems := map[string]bool{}
+	listings := 0
+	for g := 0; g < 4; g++ {
+		wg.Add(1)
+		go func() {
+			defer wg.Done()
+			for {
+				select {
+				case <-stop:
+					return
+				default:
+				}
+				ids, err := rc.Bugs().Query(q)
+				mu.Lock()
+				listings++
+				if err != nil {
+					problems["query failed: "+err.Error()] = true
+				} else {
+					seen := map[entity.Id]bool{}
+					for _, id := range ids {
+						if seen[id] {
+							problems["a listing holds a bug twice"] = true
+						}
+						seen[id] = true
+					}
+					if len(ids) < N {
+						problems[fmt.Sprintf("a listing of all open bugs holds %d bugs although %d existed before it started and none was closed or removed", len(ids), N)] = true
+					}
+				}
+				mu.Unlock()
+			}
+		}()
+	}
+	for g := 0; g < 4; g++ {
+		wg.Add(1)
+		go func(g int) {
+			defer wg.Done()
+			ids := rc.Bugs().AllIds()
+			for k := 0; ; k++ {
+				select {
+				case <-stop:
+					return
+				default:
+				}
+				if g == 0 {
+					rc.Bugs().New(fmt.Sprintf("storm newcomer %d", k), "m")
+					continue
+				}
+				if b, err := rc.Bugs().Resolve(ids[(k*7+g)%len(ids)]); err == nil {
+					b.SetTitle(fmt.Sprintf("retitled %d by %d", k, g))
+					b.CommitAsNeeded()
+				}
+			}
+		}(g)
+	}
+	time.Sleep(time.Duration(c.pick(3, 12)) * time.Second)
+	close(stop)
+	fin := make(chan struct{})
+	go func() { wg.Wait(); close(fin) }()
+	select {
+	case <-fin:
+	case <-time.After(60 * time.Second):
+		c.violation(-1, "C18/deadlock", "query storm: goroutines did not come back", nil)
+		return
+	}
+	c.countN("storm-listings", listings)
+	for p := range problems {
+		c.violation(-1, "C18/listing-wrong-under-load", "query storm: "+p, nil)
 	}
 }
 
@@ -297,9 +414,18 @@ func c18Run(c *runCtx, r *rng, ci, workers, procs, cacheSize, steps int) {
 						continue
 					}
 					set("Commit " + id.Human())
-					if err := b.CommitAsNeeded(); err == nil && opId != "" {
+					// half of the commits are the plain Commit, which answers with an error when another
+					// worker's commit has already stored what this one staged: an error, nothing more — the
+					// bug stays usable, and the operation is stored by that other commit
+					var cerr error
+					if rr.chance(1, 2) {
+						cerr = b.Commit()
+					} else {
+						cerr = b.CommitAsNeeded()
+					}
+					if opId != "" {
 						mu.Lock()
-						acks = append(acks, c18Ack{w, id, opId, false})
+						acks = append(acks, c18Ack{w, id, opId, cerr != nil})
 						mu.Unlock()
 					}
 				case x < 9:
